@@ -24,6 +24,8 @@ struct Spec {
   std::vector<std::vector<int>> ops; // per notifier thread; n>0 = count_down(n), 0 = arrive_and_wait (last op of its thread)
   int finalOp = -1; // ordered: n>0 count_down(n), 0 arrive_and_wait (by the main thread)
   int lateWaiters = 0; // waiters started only after the count reached zero
+  int simShape = -1; // >= 0: 'simultaneous final decrements' family (index into kSimShapes)
+  int simRounds = 0;
   bool multi = false; // some count_down(n>1) exists
   // perturbation
   double preWaitP = 0, spuriousP = 0, hookP = 0;
@@ -32,6 +34,10 @@ struct Spec {
   J json() const {
     J j;
     j.kv("kind", kind ? "latch" : "event").kv("waiters", waiters).kv("arrival", arrival);
+    if (simShape >= 0) {
+      j.kv("family", "simultaneous-final").kv("shape", simShape).kv("rounds", simRounds);
+      return j;
+    }
     if (kind == 0) {
       j.kv("rounds", rounds).kv("notifiers", notifiers);
     } else {
@@ -88,6 +94,7 @@ void clearPerturbation() {
 }
 
 struct Obs {
+  long simParkedRounds = 0, simRounds = 0;
   long early = 0;
   bool parkedAll = false;
   bool gateReached = false;
@@ -272,6 +279,150 @@ Obs runLatch(const Spec& s) {
   return o;
 }
 
+// ------------------------------------------------------------------ simultaneous final decrements
+// A waiter is parked in Latch::wait(); the last k decrements that together take the count to zero are
+// released at the same instant through a hot spin line (relaxed atomics, no futex), with a per-round
+// skew of -300..+300 ns between the racers, many rounds per case, a fresh Latch each round.
+// Verdict (state only): the count is zero, every count_down has returned, no FUTEX_WAKE has been issued since the round
+// began, and a waiter is still inside its untimed futex wait (3 samples, exit counter stable): nobody
+// will ever wake it.
+struct SimShape {
+  const char* name;
+  int count;
+  std::vector<int> ops; // one per racer: n > 0 count_down(n), 0 arrive_and_wait()
+};
+const SimShape kSimShapes[] = {
+    {"count_down1+count_down1", 2, {1, 1}},
+    {"count_down2+count_down1", 3, {2, 1}},
+    {"count_down1x3", 3, {1, 1, 1}},
+    {"count_down1+arrive_and_wait", 2, {1, 0}},
+};
+
+inline void backoffWait(const std::atomic<long>& a, long r) {
+  unsigned spins = 0;
+  while (a.load(std::memory_order_relaxed) < r) {
+    ++spins;
+    if (spins > 2000) usleep(20);
+    else if (spins > 200) std::this_thread::yield();
+  }
+}
+
+Obs runSimultaneous(const Spec& s) {
+  Obs o;
+  const SimShape& sh = kSimShapes[s.simShape];
+  const int k = static_cast<int>(sh.ops.size());
+  const long R = s.simRounds;
+  int cdOps = 0, arrOps = 0;
+  for (int op : sh.ops) (op ? cdOps : arrOps)++;
+  std::vector<std::unique_ptr<dispenso::Latch>> latches;
+  for (long r = 0; r < R; ++r) latches.emplace_back(new dispenso::Latch(static_cast<uint32_t>(sh.count)));
+  resetState(sh.count);
+  std::atomic<long> wgo{-1}, prep{-1}, go{-1}, hot{0}, opsRet{0}, wdone{0}, arrDone{0};
+  auto check = [&](const char* what, long r) {
+    long iss = g_issued.load(std::memory_order_relaxed);
+    bool zero = latches[static_cast<size_t>(r)]->try_wait();
+    if (iss < sh.count || !zero) {
+      g_early.fetch_add(1, std::memory_order_relaxed);
+      vrt::violation(std::string("Latch::") + what + " returned before the count reached zero", J().kv("issued", iss).kv("count", sh.count).kv("try_wait", zero).kv("round", r), "early-return");
+    }
+  };
+  std::thread waiter([&] {
+    vrt::progress();
+    for (long r = 0; r < R; ++r) {
+      backoffWait(wgo, r);
+      latches[static_cast<size_t>(r)]->wait();
+      check("wait()", r);
+      wdone.store(r + 1, std::memory_order_relaxed);
+    }
+  });
+  std::vector<std::thread> racers;
+  for (int t = 0; t < k; ++t) {
+    racers.emplace_back([&, t] {
+      vrt::progress();
+      const int op = sh.ops[static_cast<size_t>(t)];
+      for (long r = 0; r < R; ++r) {
+        backoffWait(prep, r);
+        hot.fetch_add(1, std::memory_order_relaxed);
+        while (go.load(std::memory_order_relaxed) < r) {
+        }
+        // skew: racer 0 late for positive d, racer 1 late for negative d, racer 2 on its own cycle
+        long d = ((r * 7) % 61 - 30) * 10;
+        long mine = t == 0 ? (d > 0 ? d : 0) : t == 1 ? (d < 0 ? -d : 0) : (r % 5) * 25;
+        for (volatile long i = 0; i < mine; ++i) {
+        }
+        dispenso::Latch& l = *latches[static_cast<size_t>(r)];
+        if (op) {
+          g_issued.fetch_add(op, std::memory_order_relaxed);
+          l.count_down(static_cast<uint32_t>(op));
+          opsRet.fetch_add(1, std::memory_order_relaxed);
+        } else {
+          g_issued.fetch_add(1, std::memory_order_relaxed);
+          l.arrive_and_wait();
+          check("arrive_and_wait()", r);
+          arrDone.fetch_add(1, std::memory_order_relaxed);
+        }
+      }
+    });
+  }
+  vrt::FutexStats f0 = vrt::futexStats();
+  for (long r = 0; r < R; ++r) {
+    g_issued.store(0, std::memory_order_relaxed);
+    g_waitReturned.store(r, std::memory_order_relaxed);
+    const vrt::FutexStats fr = vrt::futexStats();
+    wgo.store(r, std::memory_order_relaxed);
+    // the waiter must be parked before the racers are released (bounded; a round where it is not is
+    // still run, it just does not count for the coverage class)
+    bool parked = false;
+    for (double end = vrt::nowSeconds() + 0.02; !parked;) {
+      parked = vrt::futexStats().inUntimedWaitNow >= 1;
+      if (parked || vrt::nowSeconds() > end) break;
+      std::this_thread::yield();
+    }
+    if (parked) ++o.simParkedRounds;
+    prep.store(r, std::memory_order_relaxed);
+    for (unsigned spins = 0; hot.load(std::memory_order_relaxed) < static_cast<long>(k) * (r + 1);) {
+      if (++spins > 100) std::this_thread::yield();
+    }
+    go.store(r, std::memory_order_relaxed);
+    for (unsigned spins = 0; opsRet.load(std::memory_order_relaxed) < static_cast<long>(cdOps) * (r + 1);) {
+      if (++spins > 100) std::this_thread::yield(); // count_down never blocks
+    }
+    g_opsReturned.store(cdOps, std::memory_order_relaxed);
+    int stable = 0;
+    uint64_t exitsSeen = 0;
+    unsigned polls = 0;
+    while (wdone.load(std::memory_order_relaxed) < r + 1 || arrDone.load(std::memory_order_relaxed) < static_cast<long>(arrOps) * (r + 1)) {
+      if (++polls < 200) {
+        std::this_thread::yield();
+        continue;
+      }
+      vrt::FutexStats fs = vrt::futexStats();
+      // (the count really is zero: an arriver that was preempted before its decrement leaves the waiter
+      // parked legitimately)
+      const bool zero = latches[static_cast<size_t>(r)]->try_wait();
+      if (zero && fs.wakes == fr.wakes && fs.inUntimedWaitNow >= 1 && (stable == 0 || fs.waitExits == exitsSeen)) {
+        exitsSeen = fs.waitExits;
+        if (++stable >= 3) {
+          vrt::violation("lost wake-up: the count reached zero through overlapping final decrements, every count_down() has returned, no FUTEX_WAKE was issued, and a waiter is still parked in its futex wait",
+                         J().kv("shape", sh.name).kv("round", r).kv("skewNs", ((r * 7) % 61 - 30) * 10).kv("issued", g_issued.load()).kv("count", sh.count)
+                             .kv("parkedUntimedNow", fs.inUntimedWaitNow).kv("waiterParkedBeforeRelease", parked).kv("try_wait", latches[static_cast<size_t>(r)]->try_wait()));
+          _exit(3); // the parked threads can never be joined: the process is sacrificed (driver continues with the next case)
+        }
+      } else {
+        stable = 0;
+      }
+      usleep(2000);
+    }
+    vrt::progress();
+  }
+  waiter.join();
+  for (auto& t : racers) t.join();
+  o.simRounds = R;
+  o.early = g_early.load();
+  o.futexWaits = static_cast<long>(vrt::futexStats().waits - f0.waits);
+  return o;
+}
+
 // Split `total` into parts and spread them over threads. unitOnly => every part is 1.
 void genLatch(vrt::Rng& r, Spec& s, int cls) {
   // cls: 0 unit ops only; 1 multi parts exist but the final op is a unit (ordered);
@@ -368,6 +519,13 @@ void runC21() {
       genPerturbation(r, s);
       if (s.arrival == 3) s.hookP = 0; // the site is used as a gate
       key = std::string("event/") + arrivalName(s.arrival) + (s.waiters > 1 ? "/multi-waiter" : "/one-waiter");
+    } else if (sel >= 39) {
+      s.kind = 1;
+      s.simShape = static_cast<int>((idx / 41 + sel) % 4);
+      long maxR = vrt::g_args.getInt("simrounds", (VRT_TSAN || VRT_ASAN) ? 150 : (vrt::thorough() ? 3000 : 1000));
+      s.simRounds = static_cast<int>(r.range(maxR / 3, maxR));
+      s.waiters = 1;
+      key = std::string("latch/simultaneous-final/") + kSimShapes[s.simShape].name;
     } else {
       int cls = 0;
       if (sel >= 36 && sel <= 37) cls = 1;
@@ -382,9 +540,18 @@ void runC21() {
     }
     vrt::caseBegin(idx, key, s.json());
     vrt::watchdogArm();
-    Obs o = s.kind == 0 ? runEvent(s) : runLatch(s);
+    Obs o = s.simShape >= 0 ? runSimultaneous(s) : (s.kind == 0 ? runEvent(s) : runLatch(s));
     vrt::watchdogDisarm();
     std::vector<std::string> cls;
+    if (s.simShape >= 0) {
+      cls.push_back("latch");
+      cls.push_back("simultaneous-final");
+      cls.push_back(std::string("simultaneous-final:") + kSimShapes[s.simShape].name);
+      if (o.simParkedRounds * 2 >= o.simRounds) cls.push_back("simultaneous-final:waiter-parked");
+      vrt::caseEnd(J().kv("rounds", o.simRounds).kv("roundsWithParkedWaiter", o.simParkedRounds).kv("early", o.early).kv("futexWaits", o.futexWaits),
+                   o.simParkedRounds > 0 ? s.json().str() : "", cls);
+      continue;
+    }
     cls.push_back(s.kind == 0 ? "event" : "latch");
     cls.push_back(std::string(s.kind == 0 ? "event:" : "latch:") + arrivalName(s.arrival));
     if (o.parkedAll) cls.push_back(s.kind == 0 ? "event:all-parked-before-notify" : "latch:all-parked-before-final");
